@@ -231,6 +231,15 @@ def gen_map(rng, scaffolds, bpt, edits=None, tagging=True):
             elif rng.random() < 0.1 and not any("Painted" in p[4] for p in g["pieces"]):
                 for p in g["pieces"]:
                     p[4].append("Contaminant")
+            elif rng.random() < 0.05:
+                rng.choice(g["pieces"])[4].append("FalseDuplicate")
+        if rng.random() < 0.12:
+            # "Target" mode: the wanted scaffolds are tagged, everything after the
+            # first Target tag without one is treated as a contaminant
+            for g in groups:
+                if rng.random() < 0.7:
+                    for p in g["pieces"]:
+                        p[4].append("Target")
     return {"bpt": bpt, "groups": groups}
 
 
@@ -254,7 +263,13 @@ def tag_haplotypes(rng, m):
             for p in g["pieces"]:
                 p[4][:] = ["Painted", h]
             order.append(g)
-    extra = rng.random() < 0.3
+    if order and rng.random() < 0.2:
+        for p in order[0]["pieces"]:
+            p[4].append("Primary")
+    if len(order) > 2 and rng.random() < 0.2:
+        for p in order[-1]["pieces"]:
+            p[4].append("Singleton")
+    extra = rng.random() < 0.4
     if extra and order:
         t = rng.choice(["X", "Z", "W"])
         for p in order[0]["pieces"]:
